@@ -18,6 +18,8 @@ var files = []genFile{
 	{"Numeric.lean", genNumeric},
 	{"NumericSimp.lean", genNumericSimp},
 	{"Tokens.lean", genTokens},
+	{"Fold.lean", genFold},
+	{"Unary.lean", genUnary},
 	{"JsonTables.lean", genJsonTables},
 	{"SymFacts.lean", genSymFacts},
 	{"ConvReg.lean", genConvReg},
